@@ -14,5 +14,5 @@ Elem3 == [s \in S3 |-> IF s = "s1" THEN {"H"} ELSE IF s = "s2" THEN {"H", "N"} E
 Elem2 == [s \in S2 |-> IF s = "s1" THEN {"H"} ELSE {"H", "N"}]
 \* history and its length are not part of the explored state
 View == <<alive, want, owner, cell, store, cache>>
-ViewDepth == <<alive, want, owner, cell, store, cache, Len(h), IF h = <<>> THEN <<>> ELSE <<h[Len(h)].act, h[Len(h)].p>> >>
+ViewDepth == <<alive, want, owner, cell, store, cache, Len(h)>>
 =============================================================================
